@@ -475,4 +475,9 @@ def obligations(tier, seed):
     from .cfgframe import journey_obligations as _journey
     _extra = _journey(R.bodies("server"), "max_connections", "max_connections", scenario="cfg_journey", fixed={"field": "max_connections"})
     out += _extra
+    # "refused with HTTP 429": the status the refusal carries (the admission obligations decide that the refusal helper answers)
+    from .httpstatus import obligation as _status
+    out.append(_status(srv, "too_many_requests", "kernel:response::too_many_requests:status-429", lambda s: s == 429,
+                       "the response built for a connection beyond max_connections carries HTTP status 429",
+                       dict(scenario="c11_limits", vars={}, fixed={"limit": 2}, region=z3.BoolVal(True)), "status-429"))
     return out
